@@ -1,6 +1,8 @@
 import SC.Properties.C08
 import SC.Properties.C01
 import SC.Properties.C02
+import SC.Properties.C09
+import SC.Properties.C10
 /-!
 # C17 — the API agrees with itself on every input
 
@@ -54,4 +56,13 @@ theorem containsX (s t : Bytes) (r : Int) :
     (S.containsAny s t = true ↔ S.indexAny s t ≥ 0) ∧ (S.containsRune s r = true ↔ S.indexRune s r ≥ 0) ∧
     (S.containsNonASCII s = true ↔ S.indexNonASCII s ≥ 0) := by
   simp [S.containsAny, S.containsRune, S.containsNonASCII]
+/-- the same identities hold of the algorithm model (through the refinement theorems) -/
+theorem model_identities (cfg : A.Cfg) (s t : Bytes) :
+    (A.Contains cfg s t = true ↔ 0 ≤ A.Index cfg s t) ∧ (A.HasPrefix cfg s t = true ↔ A.Index cfg s t = 0) ∧
+    (A.CutPrefix cfg s t).2 = A.HasPrefix cfg s t ∧ (A.CutSuffix cfg s t).2 = A.HasSuffix cfg s t ∧
+    (A.CutSuffix cfg s t).1 = A.TrimSuffix cfg s t ∧ (A.EqualFold cfg s t = true ↔ A.Compare cfg s t = 0) := by
+  rw [C01.contains_refines, C01.index_refines, C09.hasPrefix_refines, C09.cutPrefix_refines, C09.cutSuffix_refines,
+    C09.hasSuffix_refines, C09.trimSuffix_refines]
+  exact ⟨C01.contains_iff s t, hasPrefix_iff_index_zero s t, cutPrefix_found s t, (cutSuffix_found s t).1, (cutSuffix_found s t).2,
+    by simp [A.EqualFold]⟩
 end C17
